@@ -432,7 +432,10 @@ def run_single(case: dict, rng, sizes, max_inst: int, extra_feeds=()) -> dict:
         # secondary inputs must hold meaningful values (indices, depth, condition)
         if case["op"] in ("ArrayFeatureExtractor", "OneHot", "Compress"):
             vals_in = [{"e": L.elem_name(feed[n].dtype), "s": list(feed[n].shape)} for n in op.inputs]
-            feed.update(dict(zip(op.inputs, op.feed(rng, vals_in))))
+            try:
+                feed.update(dict(zip(op.inputs, op.feed(rng, vals_in))))
+            except Exception:  # noqa: BLE001 - keep the random feed
+                pass
         if case.get("erase"):
             feed["shape__"] = np.array(feed[op.inputs[0]].shape, dtype=np.int64)
         return feed
@@ -828,6 +831,74 @@ def run_program(case: dict, sizes, max_inst: int, extra_feeds=()) -> dict:
         "body_vars_exposed": g.body_exposed, "text": "; ".join(g.text), "load_error": st.get("load_error"),
         "runtime_disagreements": st.get("runtime_disagreements", 0), "disagreement_samples": st.get("disagreement_samples", []),
     }
+
+
+# ----------------------------------------------------------------------------- conflicting function bodies
+# One (domain, name) whose calls produce DIFFERENT bodies: a helper whose body depends on the static
+# rank / element type of its argument, or two different helpers under one name. Result types are
+# inferred per call from that call's own body, but a built model holds one FunctionProto per key, so
+# every call executes the same stored body. The unchanged spox refuses to build such a program
+# ("two different definitions"); if a build ever returns, every exposed Var is judged like any other.
+def _conflict_helpers(op):
+    def last_axis_sum(p):  # reduces "the last axis", computed from the argument's static rank
+        r = len(p.type.shape)
+        return [op.reduce_sum(p, op.const(np.array([r - 1], dtype=np.int64)), keepdims=0)]
+
+    def append_axis(p):  # unsqueeze at axis = rank
+        r = len(p.type.shape)
+        return [op.unsqueeze(p, op.const(np.array([r], dtype=np.int64)))]
+
+    def to_other_dtype(p):  # float -> int64, anything else -> float32
+        return [op.cast(p, to=np.int64 if L.elem_name(p.type.dtype) == "f32" else np.float32)]
+
+    def flatten_if_matrix(p):  # rank 2 is flattened, other ranks pass through
+        if len(p.type.shape) == 2:
+            return [op.reshape(p, op.const(np.array([-1], dtype=np.int64)))]
+        return [op.identity(p)]
+
+    return {"last_axis_sum": last_axis_sum, "append_axis": append_axis, "to_other_dtype": to_other_dtype,
+            "flatten_if_matrix": flatten_if_matrix}
+
+
+CONFLICT_CASES = []
+for _h, _tys in [
+    ("last_axis_sum", [{"e": "f32", "s": [4, 2, 3]}, {"e": "f32", "s": [4, 3]}]),
+    ("last_axis_sum", [{"e": "f32", "s": ["N", 2]}, {"e": "f32", "s": [3, "N", 2]}]),
+    ("append_axis", [{"e": "f32", "s": [3]}, {"e": "f32", "s": [2, 3]}]),
+    ("to_other_dtype", [{"e": "f32", "s": [2]}, {"e": "i64", "s": [2]}]),
+    ("flatten_if_matrix", [{"e": "f32", "s": [2, 3]}, {"e": "f32", "s": [6]}]),
+    ("two_helpers", [{"e": "f32", "s": [2, 3]}, {"e": "f32", "s": [2, 3]}]),
+]:
+    for _order in ([0, 1], [1, 0]):
+        CONFLICT_CASES.append({"helper": _h, "in": _tys, "order": _order})
+
+
+def run_function_conflict(case: dict, rng, sizes, max_inst: int, extra_feeds=()) -> dict:
+    import spox.opset.ai.onnx.v17 as op
+
+    try:
+        from spox._function import to_function
+    except Exception as e:  # noqa: BLE001
+        return {"rejected": True, "error": f"to_function not importable: {e}", "runs": 0, "refused": 0, "checked": 0, "fails": []}
+    args = make_args({f"x{i}": L.ty_from_json(t) for i, t in enumerate(case["in"])})
+    vs = list(args.values())
+    name = f"c06_{case['helper']}"
+    outs = []
+    with warnings.catch_warnings():
+        warnings.simplefilter("ignore")
+        if case["helper"] == "two_helpers":
+            funs = [to_function(name, "c06.conflict")(lambda p: [op.add(p, p)]),
+                    to_function(name, "c06.conflict")(lambda p: [op.concat([p, p], axis=0)])]
+            for k in case["order"]:
+                outs.extend(funs[k](vs[k]))
+        else:
+            fun = to_function(name, "c06.conflict")(_conflict_helpers(op)[case["helper"]])
+            for k in case["order"]:  # call order decides which body is stored first
+                outs.extend(fun(vs[k]))
+        outs = [op.identity(o) for o in outs] + outs  # also something computed downstream of each call
+    st = observe(args, outs, rng, sizes, max_inst, extra_feeds=extra_feeds)
+    st["built"] = "load_error" not in st
+    return st
 
 
 # ----------------------------------------------------------------------------- Scan programs
